@@ -25,7 +25,27 @@ fn strata(t: Tier) -> Vec<Stratum> {
     vec![
         ex("small-tables-exhaustive", scale(t, n_tables(), n_tables(), 40)),
         st("random-tables", scale(t, 3_000_000, 30_000_000, 480)),
+        ex("word-sized-tables-exhaustive", scale(t, n_tables5(), n_tables5(), 0)),
+        st("boundary-byte-tables", scale(t, 1_000_000, 10_000_000, 200)),
     ]
+}
+
+/// bytes that matter to scanning tricks (SWAR zero-byte tests borrow across 0x01 / 0x80 / 0xff neighbours)
+const ALPHABET5: [u8; 5] = [0x00, 0x01, b'a', 0x80, 0xff];
+
+/// all tables of length 8 and 9 over ALPHABET5 (one machine word, and a word plus one tail byte)
+fn n_tables5() -> u64 {
+    5u64.pow(8) + 5u64.pow(9)
+}
+
+fn table5_for(case: u64) -> Vec<u8> {
+    let (l, mut c) = if case < 5u64.pow(8) { (8, case) } else { (9, case - 5u64.pow(8)) };
+    let mut v = Vec::with_capacity(l);
+    for _ in 0..l {
+        v.push(ALPHABET5[(c % 5) as usize]);
+        c /= 5;
+    }
+    v
 }
 
 fn table_for(case: u64) -> Vec<u8> {
@@ -146,6 +166,23 @@ fn run(ctx: &mut Ctx, si: usize, case: u64) {
                     ctx.count("offset>=2^32-with-low-bits-in-table");
                     check_lookup(ctx, &table, hi | lo);
                 }
+            }
+        }
+        2 => {
+            let table = table5_for(case);
+            ctx.sample(|| format!("table={} every offset 0..=len", hex_trunc(&table, 16)));
+            for off in 0..=table.len() {
+                check_lookup(ctx, &table, off);
+            }
+        }
+        3 => {
+            // 8..40 bytes drawn from the boundary bytes only: every word position and tail length of a chunked scan
+            let len = 8 + ctx.rng.usize_below(33);
+            let alpha = [0x00u8, 0x00, 0x01, 0x01, b'a', 0x7f, 0x80, 0xff, 0xC3, 0xA9];
+            let table: Vec<u8> = (0..len).map(|_| alpha[ctx.rng.usize_below(alpha.len())]).collect();
+            ctx.sample(|| format!("table={} every offset", hex_trunc(&table, 40)));
+            for off in 0..=table.len() {
+                check_lookup(ctx, &table, off);
             }
         }
         _ => {
